@@ -157,9 +157,11 @@ fn ops<const N: usize>(rng: &mut Rng, thorough: bool, out: &mut Out) {
         out.line(&format!("C15 numbits {} {}", n, ah), &format!("{:x}", x.num_bits()));
         out.line(&format!("C15 tobitsle {} {}", n, ah), &bits_str(&x.to_bits_le()));
         out.line(&format!("C15 tobitsbe {} {}", n, ah), &bits_str(&x.to_bits_be()));
-        // the iterators directly as well
-        debug_assert_eq!(BitIteratorBE::new(&x).collect::<Vec<_>>(), x.to_bits_be());
-        debug_assert_eq!(BitIteratorLE::new(&x).collect::<Vec<_>>(), x.to_bits_le());
+        // the four bit iterators of ff/src/bits.rs directly (over the limb slice)
+        out.line(&format!("C15 iterbe {} {}", n, ah), &guarded(|| bits_str(&BitIteratorBE::new(&x).collect::<Vec<_>>())));
+        out.line(&format!("C15 iterle {} {}", n, ah), &guarded(|| bits_str(&BitIteratorLE::new(&x).collect::<Vec<_>>())));
+        out.line(&format!("C15 iterbenz {} {}", n, ah), &guarded(|| bits_str(&BitIteratorBE::without_leading_zeros(&x).collect::<Vec<_>>())));
+        out.line(&format!("C15 iterlenz {} {}", n, ah), &guarded(|| bits_str(&BitIteratorLE::without_trailing_zeros(&x).collect::<Vec<_>>())));
         out.line(&format!("C15 tobytesle {} {}", n, ah), &hex_list_u8(&x.to_bytes_le()));
         out.line(&format!("C15 tobytesbe {} {}", n, ah), &hex_list_u8(&x.to_bytes_be()));
         // round trips through bits (from_bits_* of own bits)
